@@ -201,6 +201,40 @@ class VAbs(V):
     def truth(self, st, eng): return z3.BoolVal(True)
 
 
+class VAbsIte(VAbs):
+    """if-then-else of two abstract objects: every operation is delegated to both and merged"""
+    label = "abs-ite"
+
+    def __init__(self, c, a, b): self.c, self.a, self.b = c, a, b
+
+    def _both(self, fa, fb, st):
+        ra, rb = fa(), fb()
+        ra = ra[0][1] if isinstance(ra, list) else ra
+        rb = rb[0][1] if isinstance(rb, list) else rb
+        if isinstance(ra, z3.ExprRef) or isinstance(rb, z3.ExprRef) or isinstance(ra, bool):
+            return z3.If(self.c, ra, rb)
+        return ite(self.c, ra, rb)
+
+    def getattr(self, name, st, eng):
+        return self._both(lambda: self.a.getattr(name, st, eng), lambda: self.b.getattr(name, st, eng), st)
+
+    def hasattr(self, name, st, eng):
+        return z3.If(self.c, self.a.hasattr(name, st, eng), self.b.hasattr(name, st, eng))
+
+    def length(self, st, eng):
+        return self._both(lambda: self.a.length(st, eng), lambda: self.b.length(st, eng), st)
+
+    def getitem(self, idx, st, eng):
+        return self._both(lambda: self.a.getitem(idx, st, eng), lambda: self.b.getitem(idx, st, eng), st)
+
+    def call_method(self, name, args, kwargs, st, eng):
+        if eng.spec_depth:
+            return [(st, self._both(lambda: self.a.call_method(name, args, kwargs, st, eng),
+                                    lambda: self.b.call_method(name, args, kwargs, st, eng), st))]
+        sa, sb = st.fork().assume(self.c), st.fork().assume(z3.Not(self.c))
+        return self.a.call_method(name, args, kwargs, sa, eng) + self.b.call_method(name, args, kwargs, sb, eng)
+
+
 class VFunc(V):
     """python-side callable: fn(args, kwargs, st, eng) -> list[(st, V)]"""
     def __init__(self, name, fn): self.name = name; self.fn = fn
@@ -277,6 +311,10 @@ def typeof(v):
     if isinstance(v, VSeq): return TSeq(v.etype)
     if isinstance(v, VTuple): return TTuple([typeof(e) for e in v.elems])
     if isinstance(v, VRec): return TRec(v.name, {f: typeof(x) for f, x in v.fields.items()})
+    if isinstance(v, VAbs):
+        return TAbs(None, getattr(v, "label", "abs"))
+    if isinstance(v, VRef):
+        return TAbs(None, "ref")
     raise TypeError(f"typeof: {v!r}")
 
 
@@ -308,11 +346,17 @@ def ite(c, a, b):
     if isinstance(a, VTuple) and isinstance(b, VTuple) and len(a.elems) == len(b.elems):
         return VTuple([ite(c, x, y) for x, y in zip(a.elems, b.elems)])
     if isinstance(a, VSeq) and isinstance(b, VSeq):
+        if b.concrete is not None and not b.concrete:
+            return VSeq(z3.If(c, a.len, 0), a.elem, a.etype)
+        if a.concrete is not None and not a.concrete:
+            return VSeq(z3.If(c, 0, b.len), b.elem, b.etype)
         return VSeq(z3.If(c, a.len, b.len), lambda i: ite(c, a.elem(i), b.elem(i)), a.etype)
     if isinstance(a, VRec) and isinstance(b, VRec) and a.fields.keys() == b.fields.keys():
         return VRec(a.name, {f: ite(c, a.fields[f], b.fields[f]) for f in a.fields})
     if isinstance(a, VRef) and isinstance(b, VRef) and a.oid == b.oid:
         return a
+    if isinstance(a, VAbs) and isinstance(b, VAbs):
+        return VAbsIte(c, a, b)
     raise MergeError(f"cannot merge {a!r} / {b!r}")
 
 
@@ -382,6 +426,10 @@ def veq(a, b):
         return z3.BoolVal(a.oid == b.oid)
     if isinstance(a, VClass) and isinstance(b, VClass):
         return z3.BoolVal(a.name == b.name)
+    if isinstance(a, VAbsIte):
+        return z3.If(a.c, veq(a.a, b), veq(a.b, b))
+    if isinstance(b, VAbsIte):
+        return z3.If(b.c, veq(a, b.a), veq(a, b.b))
     if isinstance(a, VAbs) and isinstance(b, VAbs) and hasattr(a, "key") and hasattr(b, "key"):
         (na, ia), (nb, ib) = a.key(), b.key()
         if na != nb or len(ia) != len(ib):
